@@ -293,7 +293,7 @@ def task(cfg):
         for key, what, rp in check_point(ctx, cfg, hist, w, cov, found):
             viols.append(Violation(PROP, key, what, rp))
         cov.extra["max_crash_depth"] = max(cov.extra.get("max_crash_depth", 0), len(hist))
-    cov.extra["suggestions_equal_only_up_to_1e-11"] = tw.NEAR[0]
+    cov.extra["suggestions_equal_only_up_to_1e-7"] = tw.NEAR[0]
     tw.NEAR[0] = 0
     cov.extra["max_accepted_relative_deviation"] = tw.MAXDEV[0]
     tw.MAXDEV[0] = 0.0
@@ -344,8 +344,8 @@ def run(tier, seed):
         "clone_from_state is called on the searcher of a freshly constructed scheduler (same constructor arguments), "
         "configured like the original; the clone replaces the searcher of a scheduler brought to the crash point by "
         "replay (dill for the real-BO family)",
-        "float hyperparameters of suggestions are compared with relative tolerance 1e-11 (GP get_params/set_params is exact "
-        "only up to an ulp; counted in suggestions_equal_only_up_to_1e-11), everything else exactly",
+        "float hyperparameters of suggestions are compared with relative tolerance 1e-7 (GP get_params/set_params is exact "
+        "only up to an ulp; counted in suggestions_equal_only_up_to_1e-7), everything else exactly",
         "debug_log=True variants of the C03-C05 worlds set searcher._debug_log = DebugLogPrinter() after construction",
     ]
     return res
